@@ -1950,8 +1950,6 @@ static void DecodeLD(Word Index) {
 }
 
 static void DecodePSHM(Word Index) {
-    UNUSED(Index);
-
     if (!ChkArgCnt(1, 1))
         ;
     else if (ThisPar) {
@@ -1959,7 +1957,7 @@ static void DecodePSHM(Word Index) {
     } else {
         ForcePageZero = True;
         if (DecodeAdr(&ArgStr[1], MModMem)) {
-            *WAsmCode = 0x4a00 | (*AdrVals);
+            *WAsmCode = Index | (*AdrVals);
             CodeLen   = 1;
         }
     }
@@ -2575,7 +2573,8 @@ static void InitFields(void) {
 
     AddInstTable(InstTable, "INTR", 0xf7c0, DecodeINTR);
     AddInstTable(InstTable, "TRAP", 0xf4c0, DecodeINTR);
-    AddInstTable(InstTable, "PSHM", 0, DecodePSHM);
+    AddInstTable(InstTable, "PSHM", 0x4a00, DecodePSHM);
+    AddInstTable(InstTable, "POPM", 0x8a00, DecodePSHM);
     AddInstTable(InstTable, "LDM", 0, DecodeLDM);
     AddInstTable(InstTable, "STLM", 0, DecodeSTLM);
     AddInstTable(InstTable, "STM", 0, DecodeSTM);
